@@ -164,7 +164,8 @@ func (i *Int) Nonzero() bool {
 func (i *Int) Set(a kyber.Scalar) kyber.Scalar {
 	ai := a.(*Int) //nolint:errcheck // Design pattern to emulate generics
 	i.M = ai.M
-	i.V = *i.V.Set(&ai.V)
+	// copy through a temporary: Nat.Set clears the receiver first, so i.Set(i) gave 0
+	i.V = *compatible.NewInt(0).Set(&ai.V)
 	return i
 }
 
